@@ -86,6 +86,11 @@ def monitorsWant (c : Spec.Ctx) (obsDelta : Int) (j : Journal) (fatalHere : Bool
   (if fatalHere then [] else (Spec.C10.holdbackBad c obsDelta j).map (fun t => "C10|" ++ t)) ++
   (if Spec.C07.amountHolds c want j then [] else ["C07|amount", "C05|compose"]) ++
   (if Spec.C07.amountHolds c (want + 1000000000) j then [] else ["C17|a SetDesiredCapacity of a scale-up does not raise the desired size the cloud holds (request not current + d)"]) ++
+  ((Spec.loweringRequests c j).flatMap (fun (cur, v) =>
+    let t := "a SetDesiredCapacity lowers the cloud group's desired size from " ++ toString cur ++ " to " ++ toString v ++ ": the cloud will terminate " ++ toString (cur - v) ++ " instance(s) of its own choosing"
+    ["C01|" ++ t ++ " (no taint, grace period or drain condition is consulted)", "C19|" ++ t ++ " (not the instances of the given nodes)"] ++
+    (if c.view.nodes.any Spec.protectedNode then ["C10|" ++ t ++ ", the nodes protected by the no-delete annotation included"] else []) ++
+    (if c.view.nodes.any (·.unschedulable) then ["C09|" ++ t ++ ", cordoned nodes included"] else []))) ++
   (if fatalHere then [] else (Spec.C07.shortfall c want j stillTainted).flatMap (fun t => ["C07|remainder-not-requested: " ++ t, "C05|brought-too-few: " ++ t] ++
     (if unt < c.st.minEff then ["C03|below min_nodes and no cool-down running, but capacity is not restored: " ++ t]
      else ["C06|the decision is to add " ++ toString want ++ " node(s), but capacity is not added: " ++ t]))) ++
